@@ -13,8 +13,8 @@ Definition tr_stop_in_callback : list label :=
 (* ... both stops run on the dispatcher thread (re-entrant lock, join of the emitter), the dispatcher exits *)
 Definition tr_shutdown : list label :=
   tr_stop_in_callback ++
-  [LStep TD; LStep TD; LStep TD; LOrd TD [0%nat]; LStep TD; LECheck 0%nat; LEExit 0%nat; LStep TD; LStep TD; LStep TD; LStep TD;
-   LStep TD; LStep TD; LStep TD; LOrd TD []; LStep TD; LStep TD; LStep TD; LStep TD; LStep TD; LStep TD].
+  [LStep TD; LStep TD; LStep TD; LOrd TD [0%nat]; LStep TD; LECheck 0%nat; LEExit 0%nat; LStep TD; LStep TD; LStep TD; LStep TD; LStep TD;
+   LStep TD; LStep TD; LStep TD; LOrd TD []; LStep TD; LStep TD; LStep TD; LStep TD; LStep TD; LStep TD; LStep TD].
 (* remove_handler_for_watch(h1, w2) from an API thread after the first delivery; event 8 is then dispatched to nobody *)
 Definition tr_remove : list label :=
   tr_deliver ++ [LCall 0%N (CRemove 1%N 2%N); LStep A0; LStep A0; LStep A0;
